@@ -267,7 +267,9 @@ func vfsGenWorld(t testing.TB, r *vfRand, o vfsGenOpts, tag string) *vfsWorld {
 		if o.tombstones && r.Chance(12) {
 			rp.tomb = true
 		}
-		if o.split && len(rp.docs) >= 2 && r.Chance(50) {
+		// a repository with a file tombstone is not split: every shard part must keep a live document (the
+		// C23 sharded model takes List's include-by-search path for every shard)
+		if o.split && len(rp.docs) >= 2 && rp.ftomb == nil && r.Chance(50) {
 			cut := 1 + r.Intn(len(rp.docs)-1)
 			ba, bb := vfsSimpleBlob(t, rp, rp.docs[:cut]), vfsSimpleBlob(t, rp, rp.docs[cut:])
 			w.shards = append(w.shards, &vfsShard{key: key + "a", parts: []vfsPart{{rp, rp.docs[:cut]}}, s: vfsLoad(t, ba), blob: ba})
